@@ -88,6 +88,10 @@ func buildProperty(ww *conversionVisitor, node *sourcewalk.PropertyNode) (*descr
 			Options:  &descriptorpb.FieldOptions{},
 		}
 
+		if st.Map.Ext != nil {
+			ww.setJ5Ext(node.Source, fieldDesc.Options, "map", st.Map.Ext)
+		}
+
 		// As for arrays: the rules of the map and the constraints implied by the
 		// value type (e.g. the id62 pattern) belong on the map field itself, which
 		// is where the validator and the schema reader look for them. Options on
